@@ -111,6 +111,9 @@ MUTANTS["C03"] = [
     ("diff_lines-loses-level", "annet/annlib/tabparser.py", "                yield from self._diff_lines(children, _level + 1, sign)", "                yield from self._diff_lines(children, min(_level + 1, 2), sign)"),
     ("pre-diff-no-moved", "annet/annlib/diff.py", "    ops = [(order, op) for op, order in ops_order.items()]", "    ops = [(order, op) for op, order in ops_order.items() if op != Op.MOVED]"),
     ("removed-children-flat", "annet/annlib/rulebook/common.py", "            children = call_diff_logic(diff_pre[row][\"subtree\"], old[row], odict(), pops + (Op.REMOVED,))", "            children = call_diff_logic(diff_pre[row][\"subtree\"], old[row], odict(), pops + (Op.REMOVED,))[:3]"),
+    ("order_config-breaks-ties-by-row-text", "annet/annlib/patching.py", '                (item["order"] if item["direct"] else -item["order"]),\n                item["direct"],\n            )))', '                (item["order"] if item["direct"] else -item["order"]),\n                item["direct"],\n                item["row"],\n            )))'),
+    ("strip_unchanged-accumulates-across-calls", "annet/annlib/patching.py", "def strip_unchanged(diff):\n    passed = []\n    for (op, row, children, d_match) in diff:\n        if op == Op.UNCHANGED:\n            continue\n        children = strip_unchanged(children)",
+     "def strip_unchanged(diff, passed=[]):\n    for (op, row, children, d_match) in diff:\n        if op == Op.UNCHANGED:\n            continue\n        children = strip_unchanged(children, [])"),
 ]
 
 MUTANTS["C08"] = [
